@@ -193,6 +193,17 @@ func compareWithSpec(s *spec.Spec, text string) string {
 			}
 		}
 	}
+	// two tokens never share a number (the spec's explicit numbers are distinct)
+	byCode := map[int]string{}
+	for i, sy := range G.Symbols {
+		if i < 2 || sy.IsNonTerminator {
+			continue
+		}
+		if other, dup := byCode[sy.Value]; dup {
+			return fmt.Sprintf("tokens %q and %q both have the number %d", other, sy.Name, sy.Value)
+		}
+		byCode[sy.Value] = sy.Name
+	}
 	for name := range wants {
 		if !seen[name] {
 			return fmt.Sprintf("symbol %q of the specification is missing from the grammar", name)
